@@ -964,6 +964,69 @@ func init() {
 	}
 }
 
+// watchShapeCases: see the call site.
+func watchShapeCases() []RCaseR {
+	var out []RCaseR
+	file, dir := filepath.Join(ruleTmp, "file1"), filepath.Join(ruleTmp, "dir1")
+	perms := [][]int{{0, 1, 2}, {0, 2, 1}, {1, 0, 2}, {1, 2, 0}, {2, 0, 1}, {2, 1, 0}}
+	for _, kind := range []string{"path", "dir"} {
+		target := file
+		if kind == "dir" {
+			target = dir
+		}
+		for _, variant := range []string{"plain", "S all", "never", "task", "S open", "fourth", "perm-first-only", "no-key", "no-perm", "ne", "two keys"} {
+			for _, pm := range perms {
+				pw := uint32(permWord("wa"))
+				parts := []Occ{
+					{Flag: "F", LHS: kind, Op: "=", RHS: target, Value: kind + "=" + target, Str: true},
+					{Flag: "F", LHS: "perm", Op: "=", RHS: "wa", Value: "perm=wa", Word: &pw},
+					{Flag: "F", LHS: "key", Op: "=", RHS: "wk", Value: "key=wk", Str: true},
+				}
+				if variant == "ne" {
+					parts[0].Op, parts[0].Value = "!=", kind+"!="+target
+				}
+				c := RCaseR{Kind: "line", Valid: true, Note: "watch-shape " + variant}
+				add := func(oc Occ) {
+					c.Occs = append(c.Occs, oc)
+					c.Tokens = append(c.Tokens, "-"+oc.Flag, oc.Value)
+				}
+				av := "always,exit"
+				switch variant {
+				case "never":
+					av = "never,exit"
+				case "task":
+					av = "always,task"
+				}
+				add(Occ{Flag: "a", Value: av})
+				switch variant {
+				case "S all":
+					add(Occ{Flag: "S", Value: "all"})
+				case "S open":
+					add(Occ{Flag: "S", Value: "open"})
+				}
+				for _, i := range pm {
+					if variant == "no-key" && i == 2 || variant == "no-perm" && i == 1 || variant == "perm-first-only" && i != 1 {
+						continue
+					}
+					add(parts[i])
+				}
+				switch variant {
+				case "fourth":
+					v := uint32(1)
+					add(Occ{Flag: "F", LHS: "pid", Op: "=", RHS: "1", Value: "pid=1", Word: &v})
+				case "two keys":
+					add(Occ{Flag: "k", Value: "k2"})
+				}
+				if variant == "task" {
+					c.Valid = false // path/dir/perm filters belong to the exit list
+				}
+				out = append(out, c)
+			}
+		}
+	}
+	return out
+}
+
 // fieldBoundaryCases: see the call site.
 func fieldBoundaryCases() []RCaseR {
 	var out []RCaseR
@@ -1541,6 +1604,11 @@ func ruleFamily(ctx *Ctx) error {
 	// mixed, with the field that reaches or crosses the limit being a filter, a comparison or the key
 	for _, c := range fieldBoundaryCases() {
 		run(c, "field-boundary")
+	}
+	// watch-shaped syscall rules, systematically: every order of path|dir, perm and key written as -F
+	// filters, and the near misses of the shape (other list/action, a syscall, a fourth filter, another operator)
+	for _, c := range watchShapeCases() {
+		run(c, "watch-shape")
 	}
 	n := ctx.N(6000, 150000)
 	res.Rule = "rule lines built from flag occurrences (every list x action, every field name x every operator with boundary and random values in decimal/hex/octal/negative/name spellings, 0..66 filters, inter-field comparisons, syscall sets by number and name incl. 'all', keys, file watches on real temp files/dirs) plus perturbed lines (stray words, junk around -F/-C values, repeated and mixed flags), hostile wire bytes (each 32-bit header word replaced by boundary values, truncations) and random Rule structs; each goes through flags.Parse -> Build -> ToCommandLine on the real code and on the model, and through the property monitors. Non-trivial = more than one flag occurrence, or hostile bytes/struct; distinct by canonical case."
